@@ -120,11 +120,20 @@ def run_text(ctx, rng, n, monitor, tmp):
                     r = numpoly.loadtxt(path, **load_kw)
                 else:
                     f = io.StringIO() if target == "StringIO" else io.BytesIO()
+                    # sometimes the polynomial is not the first thing in the stream: the caller has written (and, when
+                    # loading, already consumed) a title line, so the file object is handed over at a non-zero position
+                    offset = 0
+                    if rng.random() < .3:
+                        title = "a run of experiment 7\n"
+                        f.write(title if target == "StringIO" else title.encode())
+                        offset = f.tell()
+                        case["offset"] = offset
+                        tags.append("offset")
                     with monitor.watch("C13:savetxt", p):
                         save(f, p, **opts)
-                    raw = f.getvalue()
+                    raw = f.getvalue()[offset:]
                     first = (raw if isinstance(raw, str) else raw.decode("latin1")).split("\n", 1)[0]
-                    f.seek(0)
+                    f.seek(offset)
                     r = numpoly.loadtxt(f, **load_kw)
         except Exception as err:  # noqa: BLE001
             ctx.fail(case, f"text round trip raised {type(err).__name__}: {str(err)[:150]}", tags + [f"raises:{err_kind(err)}"])
